@@ -57,6 +57,8 @@ LEVEL_TEXT = (
     "same on the level of the reported polynomial expressions: a polynomial accepted by the verified checker agrees "
     "at every rational point with the model's; C15_enum_general - for every graph and every iteration-order schedule "
     "the enumeration returns only vertex lists grown from the root and every such vertex set exactly once; "
+    "C15_history_exact - end to end: on ONE evaluator, every call of every history on well-formed, distinctly named "
+    "motifs returns the exact expectation of its own arguments (or raises when the root is not a vertex); "
     "C15_enum_ok_general - the enumeration checker's property (every networkx-connected vertex subset containing the "
     "root exactly once, nothing else) holds for every well-formed graph, root and schedule; C15_history - on one "
     "evaluator, for every call history in which equal names denote "
